@@ -177,6 +177,15 @@ def col_cells(s):
     return F.cells(s)
 
 
+def dtype_name(s):
+    import pandas as pd
+    return "category" if isinstance(s.dtype, pd.CategoricalDtype) else str(s.dtype)
+
+
+def frame_dtypes(df):
+    return {str(c): dtype_name(df[c]) for c in df.columns}
+
+
 def frame_cells(df, with_index):
     out = [[str(c), col_cells(df[c])] for c in df.columns]
     if with_index:
@@ -275,6 +284,7 @@ def run_history(arg):
             if i == 0:
                 write(target, df, **kw)
                 expected = a_cells
+                dtypes0 = frame_dtypes(a_df)
                 st["cols"] = [c for c, _ in a_cells]
             else:
                 if len(a_df) == 0 and sorted(c for c, _ in a_cells) != sorted(c for c, _ in expected):
@@ -352,14 +362,19 @@ def run_history(arg):
             def reader():
                 pf = ParquetFile(target)
                 whole = pf.to_pandas()
-                return (frame_cells(whole, bool(h["index"])), dsfs.refs_of(pf) if not simple else [], len(pf.row_groups),
+                return (frame_cells(whole, bool(h["index"])), frame_dtypes(whole), dsfs.refs_of(pf) if not simple else [], len(pf.row_groups),
                         cat_observation(pf, whole, [c["name"] for c in h["cols"] if c["kind"] in CAT_KINDS]),
                         old_chunk_ranges(pf) if simple else [], [pf.fmd.num_rows, sum(rg.num_rows for rg in pf.row_groups), pf.count()])
             s, val = dsfs.guarded(reader, READ_TIMEOUT)
             if s != "ok":
                 st["problems"].append(("unreadable", "fresh open/read after step %d: %s %s" % (i, s, val)))
             else:
-                got, refs_a, nrg, st["cat"], ranges_a, counts = val
+                got, got_dtypes, refs_a, nrg, st["cat"], ranges_a, counts = val
+                bad_dt = sorted(c for c in dtypes0 if c in got_dtypes and got_dtypes[c] != dtypes0[c])
+                if bad_dt and i > 0:
+                    st["problems"].append(("dtype-differs", "column %s: dtype %s after the append, %s when the first write is read alone" % (
+                        bad_dt[0], got_dtypes[bad_dt[0]], dtypes0[bad_dt[0]])))
+                    st["bad_column"] = bad_dt[0]
                 st["nrg"] = nrg
                 want_rows = len(expected[0][1]) if expected else 0
                 if expected and any(c != want_rows for c in counts):
